@@ -28,6 +28,15 @@ def sh(cmd, cwd, timeout=1500, env=ENV):
         return 124, (e.stdout or b"").decode(errors="replace") if isinstance(e.stdout, bytes) else (e.stdout or "") + "\nTIMEOUT", time.time() - t0
 
 
+NS = "unshare -n sh -c 'ip link set lo up; ip link set lo multicast on; ip route add 224.0.0.0/4 dev lo 2>/dev/null; exec \"$@\"' sh "
+
+
+def ns(cmd):
+    """Run a go test command in a private network namespace: the cluster tests discover members by mDNS and
+    would otherwise see other test processes running on this machine."""
+    return NS + "sh -c " + json.dumps(cmd)
+
+
 def main():
     args = sys.argv[1:]
     seed = os.path.abspath(args[0])
@@ -77,7 +86,7 @@ def main():
         ok = True
         if not skip:
             put_demo()
-            rc, o, dt = sh(demo_cmd, wt, 400)
+            rc, o, dt = sh(ns(demo_cmd), wt, 400)
             res["demo_unpatched"] = {"rc": rc, "s": round(dt, 1), "tail": o[-600:]}
             ok &= rc == 0
         rc, o, _ = sh("git apply --whitespace=nowarn " + os.path.join(seed, "patch.diff"), wt)
@@ -90,13 +99,13 @@ def main():
         ok &= rc == 0
         if not skip and ok:
             put_demo()
-            rc, o, dt = sh(demo_cmd, wt, 400)
+            rc, o, dt = sh(ns(demo_cmd), wt, 400)
             res["demo_patched"] = {"rc": rc, "s": round(dt, 1), "tail": o[-1200:]}
             ok &= rc != 0
             del_demo()
             suite = []
             for k in range(2):
-                rc, o, dt = sh("go test -mod=mod -vet=off -count=1 -timeout 10m ./...", wt, 900)
+                rc, o, dt = sh(ns("go test -mod=mod -vet=off -count=1 -timeout 10m ./..."), wt, 900)
                 suite.append({"rc": rc, "s": round(dt, 1), "tail": "" if rc == 0 else o[-1500:]})
                 ok &= rc == 0
             res["suite_patched"] = suite
